@@ -43,7 +43,8 @@ def hostile_ctx(rnd):
         f = rnd.choice(PAYLOADS)
         return f.replace("%d", str(n[0]))
     return dict(s=p(), n=7, z=0, e="", lst=["a", p(), "c"], elst=[], m={"k": p(), "lst": [1, 2]}, none=None, nested=[[1, 2], [3]],
-                people=[{"name": "Ann", "age": 30}, {"name": p(), "age": 0}], title=p())
+                people=[{"name": "Ann", "age": 30}, {"name": p(), "age": 0}], title=p(),
+                mixed=[{"name": "alpha"}, {"name": None}, {"name": p()}, {}, {"name": ""}, {"name": "last"}])
 
 
 def has_structure(ast):
